@@ -145,6 +145,12 @@ func convModel(arg ArgSpec, kind string) (expect, string) {
 		if kind == "any" {
 			return expect{Kind: "nil"}, "ok"
 		}
+		switch kind {
+		case "int", "int8", "int16", "int32", "int64", "float64", "float32":
+			// the statement's conversions to Go numbers start from numbers: null is not one (nor is a null element of an
+			// array going to a slice of numbers) - no silent zero
+			return expect{}, "reject"
+		}
 		return expect{}, "unspec"
 	}
 	switch kind {
@@ -693,6 +699,7 @@ var argPool = []ArgSpec{
 	{K: "map"}, {K: "time"}, {K: "nilptr"}, {K: "nildec"},
 	{K: "num", Num: "1e-20"}, {K: "num", Num: "0.00000000000000000001"}, {K: "num", Num: "-3e-25"}, {K: "num", Num: "7.5e-30"}, {K: "num", Num: "123456789.000000000000000000001"},
 	{K: "arr", Elems: []ArgSpec{{K: "nilptr"}, {K: "num", Num: "1e-20"}}},
+	{K: "arr", Elems: []ArgSpec{{K: "num", Num: "1"}, {K: "null"}, {K: "num", Num: "3"}}}, {K: "arr", Elems: []ArgSpec{{K: "null"}, {K: "num", Num: "2"}}},
 }
 
 // BuiltinCallCase: builtins obey the same bridge (arity and conversion).
